@@ -49,7 +49,7 @@ func init() {
 			if tier == "quick" {
 				return 2
 			}
-			return 12
+			return 40
 		},
 		Batch:            1,
 		Workers:          4,
